@@ -175,8 +175,16 @@ def run(ctx):
     import core
     slices = QUICK if ctx.quick else THOROUGH
     per_slice = 1200 if ctx.quick else 60000
-    for sl in slices:
-        res = ctx.tlc("Formula_MC", "Formula_MC_%s.cfg" % sl, require_cases=100, timeout=1500)
+    for sl in slices + ["sim"]:
+        if sl == "sim":   # deep random behaviours of the full-alphabet grammar (tlc -simulate)
+            res = ctx.tlc("Formula_MC", "Formula_MC_sim.cfg", simulate="num=%d" % (150 if ctx.quick else 4000),
+                          depth=30, seed=ctx.seed + 7, workers=4, require_cases=100, timeout=1500)
+            uniq = {}
+            for c in res.cases:
+                uniq.setdefault(c["in"]["txt"], c)
+            res.cases = list(uniq.values())
+        else:
+            res = ctx.tlc("Formula_MC", "Formula_MC_%s.cfg" % sl, require_cases=100, timeout=1500)
         cases = [c for c in res.cases if not c["exp"]["raise"]]
         sel = ctx.pick(cases, per_slice)
         outs = ctx.pmap(replay_case, sel)
